@@ -2,7 +2,7 @@
 From Coq Require Import ZArith List Bool Lia Arith.
 From BNP Require Import Base.Prims Base.PrimsFacts Model.C11 Corr.C11
   Proofs.C11 Proofs.C11_groupby Proofs.C11_graph Proofs.C11_pipeline Proofs.C11_spec Proofs.C11_link
-  Proofs.C11_expr Proofs.C11_expr_spec Proofs.C11_stranded.
+  Proofs.C11_expr Proofs.C11_expr_spec Proofs.C11_stranded Proofs.C11_windows.
 Import ListNotations.
 Open Scope Z_scope.
 
@@ -10,7 +10,9 @@ Definition gen_extra_mem_ok (g : gen) : bool :=
   all_true (map (fun '(p, _, mem) =>
      obs_matches (g_sizes g) (spec_stranded p (gen_order g) (g_sizes g) (concat (g_a g)) (concat (g_w g))) mem) (g_sruns g))
   && all_true (map (fun '(e, q, _, mem) =>
-     obs_matches (g_sizes g) (spec_expr e q (gen_order g) (g_sizes g) (concat (g_a g)) (concat (g_b g))) mem) (g_eruns g)).
+     obs_matches (g_sizes g) (spec_expr e q (gen_order g) (g_sizes g) (concat (g_a g)) (concat (g_b g))) mem) (g_eruns g))
+  && all_true (map (fun '(a, q, _, mem) =>
+     obs_matches (g_sizes g) (spec_windows a q (gen_order g) (g_sizes g) (concat (g_a g))) mem) (g_wruns g)).
 
 Theorem gen_extra_link : forall g, gen_wellformed g = true ->
   forallb (fun c => negb (len c =? 0)) (g_w g) = true ->
@@ -34,8 +36,8 @@ Proof.
   assert (Hnw : Forall (fun c : list (Z * swin) => c <> []) (g_w g)).
   { apply forallb_Forall in Hw. eapply Forall_impl; [|exact Hw]. intros c Hc Hnil. subst c. discriminate Hc. }
   unfold gen_extra_model_ok in Hm. unfold gen_extra_mem_ok in Hmem.
-  apply andb_true_iff in Hm. destruct Hm as [Hm1 Hm2]. apply andb_true_iff in Hmem. destruct Hmem as [Hmem1 Hmem2].
-  apply andb_true_iff. split.
+  rewrite !andb_true_iff in Hm. destruct Hm as [[Hm1 Hm2] Hm3]. rewrite !andb_true_iff in Hmem. destruct Hmem as [[Hmem1 Hmem2] Hmem3].
+  rewrite !andb_true_iff. split; [split|].
   - rewrite all_true_forall in *. intros [[p streamed] mem] Hin.
     specialize (Hm1 _ Hin). specialize (Hmem1 _ Hin). cbn in Hm1, Hmem1. fold (gen_order g) in Hm1.
     rewrite (stranded_spec_current p (gen_order g) (g_sizes g) (g_a g) (g_w g) Hnd Hlen Hpos Hane' Hna Hnw Hoa How) in Hm1.
@@ -45,4 +47,8 @@ Proof.
     rewrite (expr_pipeline_spec e q (gen_order g) (g_sizes g) (g_a g) (g_b g) Hnd Hlen Hpos Hane' Hbne' Hna Hnb Hoa Hob
                (Heg e q streamed mem Hin)) in Hm2.
     fold (gen_order g). rewrite Hmem2, Hm2. reflexivity.
+  - rewrite all_true_forall in *. intros [[[a q] streamed] mem] Hin.
+    specialize (Hm3 _ Hin). specialize (Hmem3 _ Hin). cbn in Hm3, Hmem3. fold (gen_order g) in Hm3.
+    rewrite (windows_spec a q (gen_order g) (g_sizes g) (g_a g) Hnd Hlen Hpos Hane' Hna Hoa) in Hm3.
+    fold (gen_order g). rewrite Hmem3, Hm3. reflexivity.
 Qed.
